@@ -84,6 +84,15 @@ def enumerate_cases(tier, shard, nshards, seed):
 
                 yield {'src': src, 'steps': [step], 'enumerated': True}
 
+    # slice level: every container of the container templates and of the def / class saturated programs x insertion / replacement at every position x
+    # ALL donors of the container kind (many violate ordering rules: '**kw' before arguments, positional after keyword, ...), default options
+    from . import c03
+
+    sat = tuple(p for p in gen.saturated_programs() if p.lstrip('@d12(x, k=v)\n').startswith(('def ', 'async def ', 'class ')))[::7]
+
+    yield from em.slice_edit_grid(c03.GRID_TEMPLATES + sat, tier, shard, nshards, seed, optsets=({},), all_donors=True,
+                                  only_ops=('insert', 'put_slice', 'delslice', 'prepend', 'prextend', 'append', 'extend', 'setslice'))
+
 
 def check_links(root, clause, site):
     """Parent / field / root links per docs d03 for every node of the live AST."""
